@@ -189,6 +189,15 @@ func genProxiedRequest(r *core.Rand, id, limit int) ReqSpec {
 			sp.Msgs[i].Plain = r.Chance(1, 4) || sp.Msgs[i].Zero
 		}
 	}
+	// ... or a gzip request body on the plain-HTTP front (the pump then reads
+	// through the pooled decompressor, also after the handler has returned)
+	// (not for a client that keeps its body open until it has seen the call
+	// end: it would hold back the end of a gzip stream it has already finished,
+	// and Go's gzip reader keeps the last block back until it has looked for a
+	// following member)
+	if sp.Proto == "http" && !sp.LateClose && r.Chance(1, 4) {
+		sp.Compress = true
+	}
 	// a second and third binary key
 	if r.Chance(1, 3) {
 		sp.MD = append(sp.MD, [2]string{"X-Second-Bin", binValue(r, patternBytes(r.U64(), 1+r.Intn(20)))})
